@@ -350,14 +350,14 @@ Proof. intros c k s H. unfold recv. rewrite H. reflexivity. Qed.
 (* ------------------------------------------------------------------ plan = the reference's `actual` *)
 Definition p_fut (p : pinv) : bool := match p_cb p with CReq _ => true | CNot => false end.
 Definition x_of_p (p : pinv) : xinv :=
-  x_of (i_part (p_inv p)) (i_meth (p_inv p)) (i_args (p_inv p)) (p_fut p) (p_entry p).
+  x_of e_inject (i_part (p_inv p)) (i_meth (p_inv p)) (i_args (p_inv p)) (p_fut p) (p_entry p).
 
 Lemma exec_command_shape : forall r n, exec_command r n = [] \/ exists e, exec_command r n = [e].
 Proof. intros r n. unfold exec_command. destruct (aget n (commands r)); eauto. Qed.
 
 Lemma user_plan_spec : forall c n k args fut,
-    map (x_of PUser (meth_of k) args fut) (snd (dispatch builtins (c_reg c) (meth_of k))) =
-    map (fun p => x_of PUser (meth_of k) args fut (p_entry p)) (user_plan c n k args).
+    map (x_of e_inject PUser (meth_of k) args fut) (snd (dispatch builtins (c_reg c) (meth_of k))) =
+    map (fun p => x_of e_inject PUser (meth_of k) args fut (p_entry p)) (user_plan c n k args).
 Proof.
   intros c n k args fut. unfold dispatch, user_plan, get_handler. rewrite builtin_name.
   destruct (is_builtin_call k); destruct (aget (meth_of k) (features (c_reg c))); reflexivity.
@@ -366,7 +366,7 @@ Qed.
 Theorem plan_actual : forall c w n k,
     (if is_builtin_call k then [x_builtin k] else []) ++ map x_of_p (plan c w n k) = actual c w k.
 Proof.
-  intros c w n k. unfold actual, expect, user_part, cmd_part, builtin_ok.
+  intros c w n k. unfold actual, parts, user_part, cmd_part, builtin_ok.
   destruct k; cbn [is_builtin_call andb negb app plan];
     try (rewrite (user_plan_spec c n _ _ false); unfold user_plan;
          destruct (ws_effect _ _ w); cbn [negb app map];
@@ -382,12 +382,40 @@ Proof.
     unfold x_of_p, p_fut, is_req. cbn. destruct req; reflexivity.
 Qed.
 
-Lemma all_ok_actual : forall c w k, msg_ok c w k = true -> actual c w k = expect c k.
+Lemma msg_ok_actual : forall c w k, msg_ok c w k = true -> actual c w k = parts e_inject c k.
 Proof.
   intros c w k H. unfold msg_ok in H. unfold actual. destruct (is_builtin_call k) eqn:Hb; cbn [negb orb andb] in *; [|reflexivity].
-  destruct (builtin_ok c w k); cbn [negb orb] in *; [reflexivity|]. unfold expect. rewrite Hb.
-  destruct (user_part c k); [|discriminate]. rewrite app_nil_r. reflexivity.
+  destruct (builtin_ok c w k); cbn [negb orb] in *; [reflexivity|]. unfold parts. rewrite Hb.
+  destruct (user_part e_inject c k); [|discriminate]. rewrite app_nil_r. reflexivity.
 Qed.
+
+Lemma aget_in : forall {V} n (l : list (name * V)) e, aget n l = Some e -> In (n, e) l.
+Proof.
+  intros V n l. induction l as [|[k v] l IH]; intros e H; cbn [aget] in H; [discriminate|].
+  destruct (name_eqb n k) eqn:E.
+  - inversion H; subst. apply name_eqb_eq in E. subst. left. reflexivity.
+  - right. apply IH. exact H.
+Qed.
+
+(* under inj_ok the registered callables bind the server exactly for the functions that ask *)
+Lemma inj_ok_parts : forall c k, inj_ok c = true -> parts e_inject c k = expect c k.
+Proof.
+  intros c k H. unfold inj_ok in H. apply andb_true_iff in H. destruct H as [HF HC].
+  rewrite forallb_forall in HF, HC. unfold expect, parts. f_equal. f_equal.
+  - unfold cmd_part. destruct k; try reflexivity. apply map_ext_in. intros e He. unfold x_of. f_equal.
+    unfold exec_command in He. destruct (aget (Some cmd) (commands (c_reg c))) as [e'|] eqn:E; [|contradiction].
+    destruct He as [<-|[]]. apply eqb_prop. exact (HC _ (aget_in _ _ _ E)).
+  - unfold user_part. assert (X : forall e, In e (snd (dispatch builtins (c_reg c) (meth_of k))) -> e_inject e = asked c e).
+    { intros e He. unfold dispatch, get_handler in He. destruct (mem_name (meth_of k) builtins); cbn [snd] in He.
+      - destruct (aget (meth_of k) (features (c_reg c))) as [e'|] eqn:E; [|contradiction]. destruct He as [<-|[]].
+        apply eqb_prop. exact (HF _ (aget_in _ _ _ E)).
+      - destruct (aget (meth_of k) (features (c_reg c))) as [e'|] eqn:E; cbn [snd] in He; [|contradiction]. destruct He as [<-|[]].
+        apply eqb_prop. exact (HF _ (aget_in _ _ _ E)). }
+    destruct (is_builtin_call k); apply map_ext_in; intros e He; unfold x_of; rewrite (X e He); reflexivity.
+Qed.
+
+Lemma all_ok_actual : forall c w k, inj_ok c = true -> msg_ok c w k = true -> actual c w k = expect c k.
+Proof. intros c w k H1 H2. rewrite (msg_ok_actual c w k H2). apply inj_ok_parts. exact H1. Qed.
 
 (* ------------------------------------------------------------------ the other events *)
 Lemma set_task_st_fields : forall t x s,
@@ -1379,16 +1407,16 @@ Proof.
     destruct l3 as [|x3 [|? ?]]; cbn [length] in C2; try lia; cbn [filter];
     rewrite ?(A1 x1 (or_introl eq_refl)), ?(B1 x2 (or_introl eq_refl)), ?(C1 x3 (or_introl eq_refl));
     destruct (Nat.eqb m n); destruct p; cbn; lia. }
-  unfold actual, expect.
-  assert (U : forall l, l = user_part c k -> (forall x, In x l -> x_part x = PUser) /\ (length l <= 1)%nat).
+  unfold actual, parts.
+  assert (U : forall l, l = user_part e_inject c k -> (forall x, In x l -> x_part x = PUser) /\ (length l <= 1)%nat).
   { intros l ->. unfold user_part. destruct (dispatch_users_shape (c_reg c) (meth_of k)) as [->|[e ->]];
       destruct (is_builtin_call k); cbn; split; try lia; intros x [<-|[]]; reflexivity. }
-  assert (Cm : forall l, l = cmd_part c k -> (forall x, In x l -> x_part x = PCommand) /\ (length l <= 1)%nat).
+  assert (Cm : forall l, l = cmd_part e_inject c k -> (forall x, In x l -> x_part x = PCommand) /\ (length l <= 1)%nat).
   { intros l ->. unfold cmd_part. destruct k; cbn; try (split; [intros x []|lia]).
     destruct (exec_command_shape (c_reg c) (Some cmd)) as [->|[e ->]]; cbn; split; try lia; intros x [<-|[]]; reflexivity. }
   destruct (U _ eq_refl) as [U1 U2]. destruct (Cm _ eq_refl) as [C1 C2].
   destruct (is_builtin_call k && negb (builtin_ok c w k)).
-  - replace (x_builtin k :: cmd_part c k) with ([x_builtin k] ++ cmd_part c k ++ []) by (rewrite app_nil_r; reflexivity).
+  - replace (x_builtin k :: cmd_part e_inject c k) with ([x_builtin k] ++ cmd_part e_inject c k ++ []) by (rewrite app_nil_r; reflexivity).
     apply E; auto; cbn; try lia; try (intros ? []; fail); intros ? [<-|[]]; reflexivity.
   - apply E; auto; destruct (is_builtin_call k); cbn; try lia; try (intros ? []; fail); intros ? [<-|[]]; reflexivity.
 Qed.
@@ -1521,7 +1549,7 @@ Definition proj_x (x : xinv) := (x_part x, x_meth x, x_fid x, x_site x, x_inj x,
 
 Lemma in_actual_builtin : forall c w k, is_builtin_call k = true -> In (x_builtin k) (actual c w k).
 Proof.
-  intros c w k H. unfold actual, expect. rewrite H. destruct (negb (builtin_ok c w k)); cbn; auto.
+  intros c w k H. unfold actual, parts. rewrite H. destruct (negb (builtin_ok c w k)); cbn; auto.
 Qed.
 
 Lemma in_actual_plan : forall c w n k p, In p (plan c w n k) -> In (x_of_p p) (actual c w k).
@@ -1683,15 +1711,23 @@ Proof.
 Qed.
 
 (* inside the guard the code runs exactly what the reference promises *)
+Lemma msgs_ok_nth : forall c ks w n k, msgs_ok c w ks = true -> nth_error ks n = Some k ->
+    let wn := fold_left (spec_step c) (firstn n ks) w in
+    delivered wn = true -> msg_ok c wn k = true.
+Proof.
+  intros c ks. induction ks as [|k0 ks IH]; intros w n k H Hk; [destruct n; discriminate|].
+  cbn [msgs_ok] in H. apply andb_true_iff in H. destruct H as [H1 H2].
+  destruct n as [|n]; cbn [nth_error] in Hk; cbn [firstn fold_left].
+  - inversion Hk; subst. intros Hd. rewrite Hd in H1. exact H1.
+  - apply IH; assumption.
+Qed.
+
 Theorem all_ok_actual_nth : forall c ks w n k, all_ok c w ks = true -> nth_error ks n = Some k ->
     let wn := fold_left (spec_step c) (firstn n ks) w in
     delivered wn = true -> actual c wn k = expect c k.
 Proof.
-  intros c ks. induction ks as [|k0 ks IH]; intros w n k H Hk; [destruct n; discriminate|].
-  cbn [all_ok] in H. apply andb_true_iff in H. destruct H as [H1 H2].
-  destruct n as [|n]; cbn [nth_error] in Hk; cbn [firstn fold_left].
-  - inversion Hk; subst. intros Hd. rewrite Hd in H1. cbn [negb orb] in H1. apply all_ok_actual. exact H1.
-  - apply IH; assumption.
+  intros c ks w n k H Hk wn Hd. unfold all_ok in H. apply andb_true_iff in H. destruct H as [H1 H2].
+  apply all_ok_actual; [exact H1|]. exact (msgs_ok_nth c ks w n k H2 Hk Hd).
 Qed.
 
 (* ------------------------------------------------------------------ the literal promise *)
@@ -1833,4 +1869,48 @@ Proof.
   intros l1 a l2 r1 Hf F Hacc. destruct (shape_general r1 a Hf Hacc) as (e & He & P).
   exists e. split; [|exact P]. unfold registry_of. rewrite run_attempts_last_app. fold (registry_of l1). fold r1.
   cbn [run_attempts]. rewrite last_reg_app. apply run_keeps; assumption.
+Qed.
+
+(* ------------------------------------------------------------------ injection, for every signature *)
+(* the abstract signature Model/Features.v works with is what the code sees of the general one *)
+Theorem see_faithful : forall g, has_ls_param_or_annotation (see g) = has_ls_g g.
+Proof. intros [[|[|] [| |]] [|]]; reflexivity. Qed.
+
+Definition first_is_ls (p : fparams) : bool := match p with First true _ => true | _ => false end.
+Definition first_annot_server (p : fparams) : bool := match p with First _ AServer => true | _ => false end.
+
+(* the decision of has_ls_param_or_annotation for EVERY callable: named `ls`, or the hints can be
+   computed and the first parameter's hint is the server's class *)
+Theorem inject_decision : forall g,
+    has_ls_g g = first_is_ls (g_first g) || (g_hints g && first_annot_server (g_first g)).
+Proof. intros [[|[|] [| |]] [|]]; reflexivity. Qed.
+
+(* "exactly when the first parameter asks for it" holds unless the function asks by annotation
+   only and typing.get_type_hints fails on it *)
+Definition sig_ok (g : gsig) : bool :=
+  g_hints g || first_is_ls (g_first g) || negb (first_annot_server (g_first g)).
+
+Theorem inject_iff_asked_g : forall g, sig_ok g = true -> has_ls_g g = asks_server (g_first g).
+Proof. intros [[|[|] [| |]] [|]] H; try reflexivity; discriminate. Qed.
+
+Theorem inject_only_if_asked_g : forall g, has_ls_g g = true -> asks_server (g_first g) = true.
+Proof. intros [[|[|] [| |]] [|]] H; try reflexivity; discriminate. Qed.
+
+Theorem inject_refuted_unresolvable_hints :
+  exists g, asks_server (g_first g) = true /\ has_ls_g g = false /\ sig_ok g = false.
+Proof. exists (mkG (First false AServer) false). repeat split. Qed.
+
+(* a decorated definition of a function with signature g, anywhere in a case's list of definitions:
+   the registered callable binds the server iff has_ls_g g *)
+Theorem shapes_in_context_g : forall l1 a l2 g,
+    f_params (a_fn a) = see g ->
+    fresh (a_fn a) = true -> Forall (fun b => fresh (a_fn b) = true) l2 ->
+    accepted (attempt_trace (registry_of l1) a) = true ->
+    exists e, aget (a_name a) (reg_table (a_kind a) (registry_of (l1 ++ a :: l2))) = Some e /\
+              e_fid e = f_id (a_fn a) /\ e_inject e = has_ls_g g /\
+              (exec_site e = Pool <-> a_thr a <> TNone) /\ (exec_site e = LoopTask <-> f_async (a_fn a) = true).
+Proof.
+  intros l1 a l2 g Hg Hf F Hacc. destruct (shapes_in_context l1 a l2 Hf F Hacc) as (e & He & H1 & H2 & H3).
+  exists e. split; [exact He|]. split; [exact H1|]. split; [|exact H3].
+  rewrite H2, <- has_ls_asks, Hg. apply see_faithful.
 Qed.
